@@ -60,6 +60,10 @@ GEN_MODELS = {
     'gen:alias_before_redef': ('ADVAN1 TRANS2', ['CL = THETA(1)*EXP(ETA(1))', 'TVV = THETA(2)', 'VREF = TVV',
                                                   'IF (APGR.LT.5) TVV = TVV*(1 + THETA(3))', 'V = TVV*EXP(ETA(2))',
                                                   'S1 = V*VREF'], False),
+    # a symbol assigned three times, with a copy taken between the second and the third assignment and used afterwards
+    'gen:triple_assign_copy': ('ADVAN1 TRANS2', ['CL = THETA(1)*EXP(ETA(1))', 'TVV = THETA(2)', 'TVV = TVV*WGT',
+                                                  'VNORM = TVV', 'TVV = TVV*(1 + THETA(3))', 'V = TVV*EXP(ETA(2))',
+                                                  'S1 = V/VNORM'], False),
     # a rate constant defined through a chain of aliases
     'gen:alias_chain': ('ADVAN1 TRANS1', ['TVK = THETA(1)', 'KK = TVK', 'K = KK', 'V = THETA(2)*EXP(ETA(2))', 'S1 = V'], False),
     # a parameter of the ODE system is assigned again after the ODE system
@@ -68,7 +72,7 @@ GEN_MODELS = {
 }
 # quick tier visits these first (small models + the generated ones), the rest in seeded order within the budget
 PRIORITY = ['minimal.mod', 'pheno_pd.mod', 'models/mox2.mod', 'models/pheno5.mod', 'gen:eta_forms', 'gen:logit_shared',
-            'gen:reassign_after_ode', 'gen:alias_chain', 'gen:alias_before_redef',
+            'gen:reassign_after_ode', 'gen:alias_chain', 'gen:alias_before_redef', 'gen:triple_assign_copy',
             'pheno_real.mod', 'example:pheno_linear']
 _MODELS = {}
 
